@@ -340,6 +340,25 @@ static void m_apply(int op) {
                     else ESX_CHECK(sub.ptr != NULL || sub.len == 0, "split-piece", "%s: piece of a {NULL,0} input", nm);
                 }
                 ++got;
+                /* a second, unrelated iteration runs to its end between two steps of this one: an iteration is described by
+                 * its own (input, substr) pair and nothing else (added after a seeded change that kept the end of the input
+                 * of the iteration started last in a function-level static) */
+                {
+                    static const char other_txt[] = "q;rs;;tuv";
+                    uint8_t *ob = (uint8_t *)galloc_acquire(&galloc_allocator, sizeof(other_txt) - 1);
+                    memcpy(ob, other_txt, sizeof(other_txt) - 1);
+                    struct aws_byte_cursor oc = aws_byte_cursor_from_array(ob, sizeof(other_txt) - 1), os;
+                    AWS_ZERO_STRUCT(os);
+                    int on = 0;
+                    size_t olen = 0;
+                    while (on < 8 && aws_byte_cursor_next_split(&oc, ';', &os)) {
+                        ++on;
+                        olen += os.len;
+                        if (os.len && (os.ptr < ob || os.ptr + os.len > ob + sizeof(other_txt) - 1)) olen = 999;
+                    }
+                    ESX_CHECK(on == 4 && olen == 6, "split-piece", "%s: an unrelated iteration over \"q;rs;;tuv\" made between two steps gave %d pieces of %zu bytes in all", nm, on, olen);
+                    galloc_release(&galloc_allocator, ob);
+                }
             }
             ESX_CHECK(!more, "split-termination", "%s still returns pieces after %d calls", nm, got);
             ESX_CHECK(got == nw, "split-count", "%s produced %d pieces, expected %d (view [%s])", nm, got, nw, v_show(cb(), rlen));
